@@ -86,6 +86,12 @@ const OTHER_TYPES: &[(&str, &str)] = &[
     ("image", "png"),
     ("application", "jsonx"),
     ("applicatio", "json"),
+    // structured-syntax suffixes: a different subtype, not the registered one
+    ("application", "json+protobuf"),
+    ("application", "x-jackson-smile+gzip"),
+    ("application", "problem+json"),
+    ("application", "cbor+x"),
+    ("text", "x-harness+zip"),
 ];
 
 const GARBAGE: &[&str] = &["garbage", "a/", "/b", "a/b/c", "application", "@/@", "text/pla in", ";q=1", "*"];
